@@ -145,6 +145,27 @@ def _parse_pkcs8(der):
     return oid, params, inner
 
 
+def rsa_private_numbers(pem):
+    """(n, e, d, p, q, dp, dq, qi) of a PKCS#8 or PKCS#1 RSA private key in PEM form, or None"""
+    import base64 as _b
+    try:
+        txt = pem.decode() if isinstance(pem, (bytes, bytearray)) else pem
+        head = txt.split("-----")[1]
+        body = "".join(l for l in txt.splitlines() if l and not l.startswith("-----"))
+        der = _b.b64decode(body)
+        if "RSA PRIVATE KEY" in head:
+            inner = der
+        elif "PRIVATE KEY" in head:
+            _, _, inner = _parse_pkcs8(der)
+        else:
+            return None
+        _, seq, _ = der_read(inner)
+        ints = [der_int(v) for t, v in der_seq(seq)]
+        return tuple(ints[1:9])
+    except Exception:
+        return None
+
+
 def gen_key(kind, param=None, workdir="/tmp"):
     path = os.path.join(workdir, "k_%s_%s_%d.pem" % (kind, param, os.getpid()))
     if kind == "oct":
